@@ -108,15 +108,24 @@ Proof.
 Qed.
 
 (* ---------------------------------------------------------------- GFF3 + ##FASTA, reader side *)
-Lemma gff_skip_chars P ls : forall rest, forallb (forallb P) ls = true -> gff_skip ls = Ok rest -> forallb (forallb P) rest = true.
+Lemma gff_skip_opt_chars P o ls : forall last rest, forallb (forallb P) ls = true ->
+  gff_skip_opt o last ls = Ok rest -> forallb (forallb P) rest = true.
 Proof.
-  induction ls as [|l ls IH]; intros rest H E.
+  induction ls as [|l ls IH]; intros last rest H E.
   - cbn in E. inversion E. reflexivity.
-  - cbn [forallb] in H. apply andb_prop in H. destruct H as [_ H]. cbn [gff_skip] in E.
+  - cbn [forallb] in H. apply andb_prop in H. destruct H as [_ H]. cbn [gff_skip_opt] in E.
     destruct (startswith GFF_FASTA l); [inversion E; subst; exact H|].
-    destruct (head_is HASH l || is_blank l); [apply IH; assumption|].
-    destruct (gff_ft_ok l); [apply IH; assumption|discriminate].
+    destruct (filt_fast_skips o l); [apply (IH _ _ H E)|].
+    destruct (head_is HASH l || is_blank l); [apply (IH _ _ H E)|].
+    destruct (gff_ft_ok_opt o l); [|discriminate].
+    destruct (gff_filtered o l); [apply (IH _ _ H E)|].
+    destruct (gff_ft_key o l) as [[k|] st]; [|apply (IH _ _ H E)].
+    destruct last as [[k0 st0]|]; [|apply (IH _ _ H E)].
+    destruct (ft_key_eqb k k0); [|apply (IH _ _ H E)].
+    destruct (str_eqb st st0); [apply (IH _ _ H E)|discriminate].
 Qed.
+Lemma gff_skip_chars P ls rest : forallb (forallb P) ls = true -> gff_skip ls = Ok rest -> forallb (forallb P) rest = true.
+Proof. apply gff_skip_opt_chars. Qed.
 
 Theorem gff_reader_fixpoint t : wf_text Gff t = true ->
   exists o1 t2, read_content Gff (CText t) = Ok o1 /\ forallb wfb_fasta o1 = true
